@@ -8,6 +8,7 @@ R11.4 one source of truth: iteration, integer/negative/slice indexing, length an
       block list / the same generator, and the three molecule-building sites have the same shape
 R11.5 the atom-by-atom name check dominates the stores of Molecule.__init__ and compares residue and atom name
       under one running index
+R11.7 the views of a System (iteration, indexing, length, composition, the instance generator) store nothing on it
 """
 from __future__ import annotations
 
